@@ -1,5 +1,8 @@
 mod cmd_backend;
 mod cmd_stages;
+mod cmd_fmt;
+mod gen_fun;
+mod gen_fun_ast;
 mod consts;
 mod pipe;
 mod rec;
@@ -73,6 +76,7 @@ fn main() {
         }
         "pm" => cmd_pm(num(2, 1), num(3, 100) as usize, &mut *out),
         "stages" => cmd_stages::cmd_stages(num(2, 1), num(3, 0) as usize, args.get(5..).unwrap_or(&[]), &mut *out),
+        "fmt" => cmd_fmt::cmd_fmt(num(2, 1), num(3, 0) as usize, args.get(5..).unwrap_or(&[]), &mut *out),
         c => { eprintln!("unknown command {c}"); std::process::exit(2); }
     }
     out.flush().unwrap();
